@@ -162,6 +162,28 @@ func (v *verifC09Tree) dump(res string) string {
 			names = append(names, s)
 		}
 	}
+	var shadow []string
+	{
+		type se struct {
+			nm  int
+			row string
+		}
+		var es []se
+		for name, l := range x.shadowed {
+			parts := make([]string, len(l))
+			for i, n := range l {
+				parts[i] = strconv.Itoa(v.ids[n.id])
+				if n.pid.Load() == nil {
+					parts[i] += "!"
+				}
+			}
+			es = append(es, se{v.names[name], fmt.Sprintf("%d>%s", v.names[name], strings.Join(parts, "."))})
+		}
+		sort.Slice(es, func(i, j int) bool { return es[i].nm < es[j].nm })
+		for _, e := range es {
+			shadow = append(shadow, e.row)
+		}
+	}
 	for id, n := range x.pids {
 		p := n.pid.Load()
 		code := v.ids[id]
@@ -223,7 +245,11 @@ func (v *verifC09Tree) dump(res string) string {
 	if len(names) > 0 {
 		nms = strings.Join(names, ",")
 	}
-	return res + "|" + strconv.FormatInt(x.count(), 10) + "|" + nms + "|" + nodes
+	sh := "-"
+	if len(shadow) > 0 {
+		sh = strings.Join(shadow, ",")
+	}
+	return res + "|" + strconv.FormatInt(x.count(), 10) + "|" + nms + "|" + nodes + "|" + sh
 }
 
 // wouldCycle reports whether attaching p under parent closes a cycle (parent inside p's subtree).
